@@ -19,6 +19,7 @@ package iavl
 // never disturbed afterwards (the formatter objects are written only by their
 // constructor): node keys are 's' + 8-byte version + 4-byte nonce.
 //@ axiom [nodeKeyFormat] nodeKeyFormat != nil && nodeKeyFormat.length == 12 && nodeKeyFormat.prefix == 115 && len(nodeKeyFormat.prefixSlice) == 1 && at(nodeKeyFormat.prefixSlice, 0) == 115
+//@ axiom [legacyNodeKeyFormat] legacyNodeKeyFormat != nil && legacyNodeKeyFormat.length == 32 && legacyNodeKeyFormat.prefix == 110
 //@ axiom [nodeKeyPrefixFormat] nodeKeyPrefixFormat != nil && nodeKeyPrefixFormat.length == 8 && nodeKeyPrefixFormat.prefix == 115 && len(nodeKeyPrefixFormat.prefixSlice) == 1
 
 // ---------------------------------------------------------------- persistence boundary
@@ -424,10 +425,9 @@ package iavl
 //@   ensures [first] err == nil ==> ndb.firstVersion == ite(old(ndb.firstVersion) <= toVersion, toVersion + 1, old(ndb.firstVersion))
 //@   ensures [refused] old(ndb.latestVersion) <= toVersion ==> ndb.firstVersion == old(ndb.firstVersion) && ndb.latestVersion == old(ndb.latestVersion)
 //@   loop 2 invariant ndb.firstVersion == version && version >= first && (version == first || version <= toVersion + 1) && first == old(ndb.firstVersion)
+//@   callsite nodeDB).deleteVersion [only-requested-never-latest] arg1 >= old(ndb.firstVersion) && arg1 <= toVersion && arg1 < old(ndb.latestVersion) && arg1 == ndb.firstVersion
 //@   modifies *
 
-//@ func (*nodeDB).deleteVersion(ndb, version, cache) (err)
-//@   summary
 //@ func (*nodeDB).deleteLegacyVersions(ndb, legacyLatestVersion) (err)
 //@   summary
 //@ func (*nodeDB).getFirstNonLegacyVersion(ndb) (v, err)
@@ -689,10 +689,38 @@ package iavl
 //@ func (*nodeDB).traverseOrphansWithRootkeyCache(ndb, cache, prevVersion, curVersion, fn) (err)
 //@   props C04 C12
 //@   nosafety
-//@   requires ndb != nil && cache != nil
 //@   callsite NodeIterator).Next@1 [candidate-old] arg0 == curIter && arg1 && node.nodeKey.version <= prevVersion
 //@   callsite NodeIterator).Next@2 [candidate-young] arg0 == curIter && !arg1 && node.nodeKey.version > prevVersion
 //@   callsite NodeIterator).Next@3 [skip-only-shared] arg0 == prevIter && arg1 && orgNode != nil && ord(pNode.hash) == ord(orgNode.hash)
 //@   callsite param:fn [orphan-not-shared] arg0 == pNode && (orgNode == nil || ord(pNode.hash) != ord(orgNode.hash))
 //@   callsite NodeIterator).Next@4 [descend] arg0 == prevIter && !arg1
+//@   modifies *
+
+// deleteVersion: the root-marker protocol.  The marker (version,1) of the
+// deleted version is removed from the store when it only REFERS to an older
+// root; when the next version's marker refers to this version's root, the root
+// node is re-keyed to (version,0) — written back with nonce 0 after its old key
+// is deleted — so that version+1 keeps its tree while `version` disappears from
+// version discovery.  The orphan walk is asked for exactly (version, version+1).
+//@ func (*nodeDB).deleteFromPruning(ndb, key) (err)
+//@   summary
+//@ func (*nodeDB).saveNodeFromPruning(ndb, node) (err)
+//@   summary
+// storage keys of nodes: 's' + 12 bytes, legacy 'n' + 32 bytes; both are fresh
+// slices and formatting one writes nothing that existed before
+//@ func (*nodeDB).nodeKey(ndb, nk) (k)
+//@   props C13 C12
+//@   ensures [layout] k != nil && fresh(k) && len(k) == 13 && at(k, 0) == 115
+//@ func (*nodeDB).legacyNodeKey(ndb, nk) (k)
+//@   props C13 C12
+//@   ensures [layout] k != nil && fresh(k) && len(k) == 33 && at(k, 0) == 110
+//@ func (*nodeDB).deleteVersion(ndb, version, cache) (err)
+//@   props C04 C12
+//@   nosafety
+//@   requires ndb != nil && version < 9223372036854775807
+//@   callsite traverseOrphansWithRootkeyCache [adjacent] arg1 == cache && arg2 == version && arg3 == version + 1 && rootKey != nil
+//@   callsite nodeDB).deleteFromPruning@1 [reference-marker] rootKey == nil || ord(rootKey) != ord(literalRootKey)
+//@   callsite nodeDB).GetNode [next-refers-here] ord(arg1) == ord(literalRootKey) && ord(nextRootKey) == ord(literalRootKey)
+//@   callsite nodeDB).deleteFromPruning@2 [old-key-first] ord(nextRootKey) == ord(literalRootKey) && root != nil
+//@   callsite nodeDB).saveNodeFromPruning [rekeyed] arg1 == root && root.nodeKey.nonce == 0 && ord(nextRootKey) == ord(literalRootKey)
 //@   modifies *
